@@ -31,7 +31,8 @@ QUICK_RUNS = 4000
 THOROUGH_RUNS = 250_000
 EXPECT_PROBES = ["equal_timestamps", "stamp_exactly_T", "stamp_exactly_lower_edge", "future_stamp", "none_or_nan_sample", "buffer_resized",
                  "buffer_limited_window", "empty_window", "silence_longer_than_max_age", "upsampling_period_known",
-                 "samples_stamped_in_other_utc_offset", "period_of_a_day_or_more"]
+                 "samples_stamped_in_other_utc_offset", "period_of_a_day_or_more",
+                 "infinite_sample_value"]
 
 
 def _us(td: timedelta) -> int:
@@ -91,9 +92,13 @@ def scenario(sim: Sim) -> None:
     srcs = [Src(i) for i in range(nsrc)]
     cur: dict[str, Any] = {"src": None}
 
+    sid_of: dict[int, float] = {}     # id(Sample object) -> sample id (the objects are kept alive in `keep`)
+    keep: list[Any] = []
+
     def fn(samples: Any, cfg: Any, props: Any) -> float:
-        # which source this call belongs to is known from the sample ids (disjoint id ranges per source)
-        ids = [s.value.base_value for s in samples]
+        # which source this call belongs to is known from the sample ids (disjoint id ranges per source); a sample
+        # whose value is +-inf (valid: neither None nor NaN) is recognised by identity, else by its value
+        ids = [sid_of.get(id(s), s.value.base_value) for s in samples]
         src = srcs[int(ids[0]) // 1_000_000]
         src.calls.append(ids)
         for s in samples:
@@ -202,13 +207,20 @@ def scenario(sim: Sim) -> None:
                     sim.probe("future_stamp")
                     sim.nontrivial = True
                 last_ts = ts
-                vk = ch.weighted("value_kind", [12, 1, 1])
+                vk = ch.weighted("value_kind", [12, 1, 1, 1])
                 val = Quantity(float(sid)) if vk == 0 else (None if vk == 1 else Quantity(math.nan))
-                if vk:
+                if vk == 3:
+                    # an infinite value is a value (neither None nor NaN): it takes part like any other sample
+                    val = Quantity(math.inf if ch.draw("inf_sign", 2) else -math.inf)
+                    sim.probe("infinite_sample_value")
+                elif vk:
                     sim.probe("none_or_nan_sample")
                     sim.nontrivial = True
                 sim.ev("sample", f"{src.idx}:{mode}:{vk}", _us(ts - sim.epoch))
-                src.q.put_nowait((Sample(ts, val), sid, vk == 0))
+                smp = Sample(ts, val)
+                keep.append(smp)
+                sid_of[id(smp)] = float(sid)
+                src.q.put_nowait((smp, sid, vk in (0, 3)))
                 g = ch.weighted("gap_kind", [10, 2, 1])
                 if g == 0:
                     d = ch.int_between("gap_us", gaps[0], gaps[1])
